@@ -23,9 +23,14 @@ static int cur_kind = -1, cnt = 0;             // delivery in progress and how m
 static int delivered[NKINDS];                  // completed deliveries in the current API call
 static bool forward_kind(int k) { return k <= REACT; }
 // who: 1..NINJ injection, NINJ+1 the state itself
+static int xcnt[NKINDS];                       // exitGuard / query: participants seen in the delivery in progress (order not fixed)
 static void hit(int kind, int who) {
   vrec(kind, who);
-  if (kind == EXITGUARD || kind == QUERY) { if (who == NINJ + 1) delivered[kind]++; return; }
+  if (kind == EXITGUARD || kind == QUERY) {      // every participant exactly once per delivery; the order is not part of the statement
+    vassert(cnt == 0, 1502);
+    xcnt[kind]++; if (xcnt[kind] == NINJ + 1) { delivered[kind]++; xcnt[kind] = 0; }
+    return; }
+  vassert(xcnt[EXITGUARD] == 0 && xcnt[QUERY] == 0, 1502);
   if (cnt == 0) { vassert(cur_kind == -1, 1501); cur_kind = kind; }
   vassert(cur_kind == kind, 1502);                                         // deliveries do not interleave
   if (forward_kind(kind)) vassert(who == cnt + 1, 1503);                   // I1..Ik, then the state
@@ -35,11 +40,13 @@ static void hit(int kind, int who) {
 }
 static void maybe_request(FSM::FullControl& c) { unsigned char k = nondet_u8(); if (k & 1) c.changeTo(nondet_below(3)); }
 template <int Q> struct Inj : FSM::State {
-  void entryGuard(GuardControl&) { hit(ENTRYGUARD, Q); } void enter(PlanControl&) { hit(ENTER, Q); } void reenter(PlanControl&) { hit(REENTER, Q); }
+  // injected guards are user code too: they may veto (symbolic), which must not stop the remaining participants from being invoked
+  void entryGuard(GuardControl& c) { hit(ENTRYGUARD, Q); if (nondet_u8() & 1) c.cancelPendingTransition(); }
+  void enter(PlanControl&) { hit(ENTER, Q); } void reenter(PlanControl&) { hit(REENTER, Q); }
   void preUpdate(FullControl&) { hit(PREUPDATE, Q); } void update(FullControl& c) { hit(UPDATE, Q); maybe_request(c); } void postUpdate(FullControl&) { hit(POSTUPDATE, Q); }
   void preReact(const int&, FullControl&) { hit(PREREACT, Q); } void react(const int&, FullControl&) { hit(REACT, Q); } void postReact(const int&, FullControl&) { hit(POSTREACT, Q); }
   void query(int&, ConstControl&) const { hit(QUERY, Q); }
-  void exitGuard(GuardControl&) { hit(EXITGUARD, Q); } void exit(PlanControl&) { hit(EXIT, Q); }
+  void exitGuard(GuardControl& c) { hit(EXITGUARD, Q); if (nondet_u8() & 1) c.cancelPendingTransition(); } void exit(PlanControl&) { hit(EXIT, Q); }
 };
 #if NINJ == 0
 typedef FSM::State TargetBase;
@@ -67,7 +74,7 @@ struct S0 : Plain {}; struct S1 : Target {}; struct S2 : Plain {};
 struct S0 : Plain {}; struct S1 : Plain {}; struct S2 : Target {};
 #endif
 static void reset() { for (int k = 0; k < NKINDS; ++k) delivered[k] = 0; }
-static void boundary() { vassert(cur_kind == -1 && cnt == 0, 1505); }    // no delivery left half done
+static void boundary() { vassert(cur_kind == -1 && cnt == 0 && xcnt[EXITGUARD] == 0 && xcnt[QUERY] == 0, 1505); }    // no delivery left half done
 
 extern "C" int harness(void) {
   reset();
